@@ -15,7 +15,10 @@ CONSTANTS MaxArgs, Words
 Classes == {"empty", "space", "word", "key", "seckey", "num", "neg", "i32max", "i32min", "u64max",
             "u128big", "long", "nonascii", "semi", "newline", "db", "tok",
             \* very long AND non-ASCII (2-, 3- and 4-byte characters at every byte alignment)
-            "long_e0", "long_e1", "long_h0", "long_h1", "long_h2", "long_4"}
+            "long_e0", "long_e1", "long_h0", "long_h1", "long_h2", "long_4",
+            \* `|'-separated lists of database names (snapshot, replicate-snapshot): existing and unknown names
+            \* in either order, an empty item
+            "dblist", "dblist_bad_first", "dblist_bad_last", "dblist_empty_item"}
 
 Keywords(w) ==
   CASE w = "election" -> {"kw:win", "kw:candidate", "kw:alive"}
